@@ -3,7 +3,7 @@
   `collect_garbage()` a node remains iff it is reachable (along successor edges) from a node
   the user holds.
 -/
-import DDProofs.MddReach
+import DDProofs.MddLedger
 open Std
 
 namespace DD
